@@ -292,6 +292,31 @@ func init() {
 			w, sweep, measure, _, _ := suClassify(f.id, from)
 			_ = w
 			return fmt.Sprintf("res=%s sweep=%s measure=%s %s", res, b01(sweep), b01(measure), suStored(f))
+		case "su.delmap":
+			f := suFans[a.str("fan", "f1")]
+			p := persistence.NewPersistence(suDb)
+			return errTok(p.DeleteFanPwmMap(f.id)) + " " + suStored(f)
+		case "su.startcancel":
+			// start the controller and cancel its context as soon as the start-up PWM sweep has finished, i.e. in
+			// the window between "the fan was taken over" and the first regulation cycle (C03)
+			f := suFans[a.str("fan", "f1")]
+			ctx, cancel := context.WithCancel(context.Background())
+			defer cancel()
+			sawZero := false
+			prev := f.dev.OnWrite
+			f.dev.OnWrite = func(e string) {
+				if prev != nil {
+					prev(e)
+				}
+				if e == "pwm=0" {
+					sawZero = true
+				} else if sawZero && strings.HasPrefix(e, "pwm=") {
+					cancel() // the write after the sweep (start PWM): cancel now
+				}
+			}
+			res, _ := suRunOne(f, ctx, true)
+			f.dev.OnWrite = prev
+			return fmt.Sprintf("res=%s swept=%s pwm=%d mode=%d", res, b01(sawZero), f.dev.Pwm, f.dev.Mode)
 		case "su.dev":
 			// device registers of a fan (not part of the C15 model: used by C03 to see what a failed start left behind)
 			f := suFans[a.str("fan", "f1")]
